@@ -414,3 +414,40 @@ Proof.
   destruct (hdr_samples <? s_n_sample s) eqn:Ehs; [lia|].
   rewrite !Nat2Z.id. rewrite app_nil_r in Di. rewrite Di. rewrite Dfb. reflexivity.
 Qed.
+
+(* ---------------------------------------------------------------- the GT exemption *)
+Lemma split_typed_weaken : forall s mult bs x,
+  split_typed true mult bs = Some x -> split_typed s mult bs = Some x.
+Proof.
+  intros s mult bs x H. destruct s; [exact H|].
+  unfold split_typed in *. destruct (read_type bs) as [[[code len] r]|]; [|discriminate].
+  cbn [andb] in *.
+  destruct ((code =? 0) || ((len =? 0) && negb (code =? 7))); [discriminate|exact H].
+Qed.
+
+Lemma dec_fields_k_of_dec_fields : forall m mult dup n bs x,
+  dec_fields m mult dup n bs = Some x -> dec_fields_k m mult dup n bs = Some x.
+Proof.
+  intros m mult dup. induction n as [|n IH]; intros bs x H; cbn [dec_fields dec_fields_k] in *; [exact H|].
+  destruct (dec_index bs) as [[i r]|]; [|discriminate].
+  destruct (get_index m (znat (length (entries m)) i)) as [k|]; [|discriminate].
+  destruct (split_typed (negb dup) mult r) as [[vb r']|] eqn:E; [|discriminate].
+  assert (E' : split_typed (negb dup && negb (name_eqb k key_GT)) mult r = Some (vb, r')).
+  { destruct dup; cbn [negb andb] in *; [exact E|]. apply split_typed_weaken. exact E. }
+  rewrite E'.
+  destruct (dec_fields m mult dup n r') as [[l r'']|] eqn:E2; [|discriminate].
+  rewrite (IH _ _ E2). exact H.
+Qed.
+
+Lemma dec_record_k_of_dec_record : forall strings contigs hs bs x,
+  dec_record strings contigs hs bs = Some x -> dec_record_k strings contigs hs bs = Some x.
+Proof.
+  intros strings contigs hs bs x H. unfold dec_record, dec_record_k in *.
+  destruct (dec_frame bs) as [[[sb ib] rest]|]; [|discriminate].
+  destruct (dec_head strings contigs sb) as [[h ibs]|]; [|discriminate].
+  destruct (hs <? h_n_sample h); [discriminate|].
+  destruct (dec_fields strings 1 true (Z.to_nat (h_n_info h)) ibs) as [[infos r1]|] eqn:E1; [|discriminate].
+  rewrite (dec_fields_k_of_dec_fields _ _ _ _ _ _ E1).
+  destruct (dec_fields strings (Z.to_nat (h_n_sample h)) false (Z.to_nat (h_n_fmt h)) ib) as [[fmts r2]|] eqn:E2; [|discriminate].
+  rewrite (dec_fields_k_of_dec_fields _ _ _ _ _ _ E2). exact H.
+Qed.
